@@ -273,6 +273,32 @@ func structEdits(nb int) []StructEdit {
 				return true
 			})
 		}
+		// size fields at the values a reader is most likely to treat specially: 0 ("absent"?), 1, and
+		// the largest values a 63-bit integer can hold; present fields are overwritten, absent ones added
+		for _, v := range []int64{0, 1, 1<<62 + 1, 1<<63 - 1} {
+			v := v
+			add(fmt.Sprintf("block%d.compsize=%d", bi, v), true, func(m *xzModel) bool {
+				if int64(len(blk(m).Data)) == v {
+					return false
+				}
+				if blk(m).Comp < 0 {
+					blk(m).HdrPad = nil
+				}
+				blk(m).Comp = v
+				return true
+			})
+			add(fmt.Sprintf("block%d.uncompsize=%d", bi, v), true, func(m *xzModel) bool {
+				lr := ref.DecodeLZMA2(blk(m).Data, 0xFFFFFFFF, false)
+				if int64(len(lr.Out)) == v {
+					return false
+				}
+				if blk(m).Uncomp < 0 {
+					blk(m).HdrPad = nil
+				}
+				blk(m).Uncomp = v
+				return true
+			})
+		}
 		add(fmt.Sprintf("block%d.compsize*2", bi), true, func(m *xzModel) bool {
 			if blk(m).Comp < 0 {
 				return false
